@@ -461,6 +461,23 @@ class Duration(timedelta):
 
         return NotImplemented
 
+    def _getstate(self) -> tuple[int, int, int, int, int, int, int, int, int]:
+        # In the order of the constructor's parameters
+        return (
+            self.remaining_days,
+            self.remaining_seconds,
+            self.microseconds,
+            0,
+            self.minutes,
+            self.hours,
+            self.weeks,
+            self.years,
+            self.months,
+        )
+
+    def __reduce__(self) -> tuple[type[Self], tuple[int, ...]]:
+        return self.__class__, self._getstate()
+
     def __deepcopy__(self, _: dict[int, Self]) -> Self:
         return self.__class__(
             days=self.remaining_days,
@@ -468,6 +485,7 @@ class Duration(timedelta):
             microseconds=self.microseconds,
             minutes=self.minutes,
             hours=self.hours,
+            weeks=self.weeks,
             years=self.years,
             months=self.months,
         )
